@@ -172,7 +172,8 @@ def main(argv):
         return 3
     known = load_known(prop)
     ledger_path = os.path.join(HERE, "ledger", prop + ".json")
-    ledger = set(json.load(open(ledger_path))["discharged"]) if os.path.exists(ledger_path) else set()
+    ledger_doc = json.load(open(ledger_path)) if os.path.exists(ledger_path) else {}
+    ledger = set(ledger_doc.get("discharged_" + tier, []))
 
     # stale replay files of earlier runs must not be mistaken for this run's
     for f in glob.glob(os.path.join(HERE, "replay", prop, "*.json")):
@@ -297,8 +298,9 @@ def main(argv):
 
     if "--write-ledger" in argv:
         os.makedirs(os.path.dirname(ledger_path), exist_ok=True)
-        json.dump(dict(property=prop, discharged=sorted(o["name"] for o in obligations if o["status"] == "discharged")),
-                  open(ledger_path, "w"), indent=1)
+        ledger_doc["property"] = prop
+        ledger_doc["discharged_" + tier] = sorted(o["name"] for o in obligations if o["status"] == "discharged")
+        json.dump(ledger_doc, open(ledger_path, "w"), indent=1)
 
     for pdef in proofs:
         for m, q in pdef.functions:
